@@ -302,7 +302,9 @@ func c02Methods(c *run.Ctx) {
 			// arguments with non-zero defaults in the schema: what the request leaves out reaches the method as the zero value
 			field = "shout"
 			args = []argSpec{{name: "word", typ: "String", val: sval()}, {name: "times", typ: "Int", val: ival() % 1000}}
-			expect = func(a map[string]interface{}) interface{} { return zr.Query.Shout(a["word"].(string), a["times"].(int)) }
+			expect = func(a map[string]interface{}) interface{} {
+				return zr.Query.Shout(a["word"].(string), a["times"].(int))
+			}
 		case 10:
 			// a method found although the case of all its letters differs from the field's name
 			field = "url"
